@@ -230,6 +230,15 @@ func (fc *FnCtx) Translate() (err error) {
 					li.phiFresh[phi] = v
 					fc.vals[phi] = v
 					hs.assume(fc.wfFacts(v))
+					// freshness of allocation: whatever a loop-carried variable refers to at the loop head exists
+					// already, so it is none of the objects allocated from here on (their addresses are
+					// allocbase + 16*k for k > allocCtr). Objects of earlier iterations are arbitrary older addresses.
+					limit := app("bvadd", "allocbase", bvLit(uint64(fc.allocCtr+1)*16, 64))
+					for i, isRef := range refLeaves(phi.Type()) {
+						if isRef && i < len(v.L) {
+							hs.assume(app("bvult", v.L[i], limit))
+						}
+					}
 				}
 				fc.assumeInvariant(li, hs)
 				st = hs
@@ -282,7 +291,10 @@ func (fc *FnCtx) Translate() (err error) {
 					seen = append(seen, s)
 				}
 				sort.Strings(seen)
-				userErr("anchor %q matches no program point (available: %s)", a.Anchor, strings.Join(seen, "; "))
+				// reported as a failed obligation of its own (the rest of the function is still checked): the
+				// operation the clause speaks about is no longer performed at that place
+				fc.obligeAt(fc.entry, "anchor", strings.ReplaceAll(a.Anchor, " ", "_"), "false", fc.fn.Pos(),
+					fmt.Sprintf("contract clause attached to %q (%s): the function no longer performs that operation at that place (program points present: %s)", a.Anchor, a.Src, strings.Join(seen, "; ")))
 			}
 		}
 	}
@@ -326,9 +338,8 @@ func (fc *FnCtx) coerce(v Val, t types.Type) Val {
 // paramFacts: references passed in are older than anything allocated here.
 func (fc *FnCtx) paramFacts(v Val) string {
 	var facts []string
-	ls := layout(v.T)
-	for i, l := range ls {
-		if l.Sort == SortRef && (strings.HasSuffix(l.Name, ".base") || strings.HasSuffix(l.Name, ".ref") || !strings.Contains(lastSeg(l.Name), ".")) {
+	for i, isRef := range refLeaves(v.T) {
+		if isRef && i < len(v.L) {
 			facts = append(facts, app("bvult", v.L[i], "allocbase"))
 		}
 	}
@@ -1077,8 +1088,9 @@ func (fc *FnCtx) entryHeapFacts(v Val) string {
 	suffix := fmt.Sprintf("@%d|", fc.entry.id)
 	var facts []string
 	ls := layout(v.T)
-	for i, l := range ls {
-		if l.Sort != SortRef || i >= len(v.L) {
+	isRef := refLeaves(v.T)
+	for i := range ls {
+		if i >= len(v.L) || i >= len(isRef) || !isRef[i] {
 			continue
 		}
 		t := v.L[i]
